@@ -27,6 +27,9 @@ pub struct Scen {
 	pub max_steps: u64,
 }
 
+/// Scenarios in which every fourth run of the seeded search carries the run parameter `preempt` (hook H8).
+pub const PREEMPT_SCENS: &[&str] = &["srv_subs", "srv_subs_book"];
+
 #[derive(Clone)]
 pub struct Sweep {
 	pub param: &'static str,
@@ -468,10 +471,19 @@ pub fn run_check(check: &Check, tier: &str) -> i32 {
 					let scen = &check.scens[si];
 					let seed = mix(base_seed, si as u64 + 1, ri);
 					let keep = ri < 2;
-					let mut out = run_scen(scen, seed, None, false, &empty, keep);
+					// every fourth run of the scenarios that have preemption points in their code paths (hook H8) is
+					// a run with preemptions
+					let preempt_params;
+					let empty = if PREEMPT_SCENS.contains(&scen.name) && ri % 4 == 3 {
+						preempt_params = BTreeMap::from([("preempt".to_string(), 1u64)]);
+						&preempt_params
+					} else {
+						&empty
+					};
+					let mut out = run_scen(scen, seed, None, false, empty, keep);
 					out.keep_log_sample = keep;
 					if ri % 97 == 3 {
-						let again = run_scen(scen, seed, None, false, &empty, false);
+						let again = run_scen(scen, seed, None, false, empty, false);
 						let mut a = agg.lock().unwrap();
 						a.rechecked += 1;
 						if again.hash != out.hash {
@@ -479,7 +491,7 @@ pub fn run_check(check: &Check, tier: &str) -> i32 {
 							a.harness_errors.push(format!("nondeterminism: scenario {} seed {seed}: event-log hash differs between two executions", scen.name));
 						}
 					}
-					absorb(check, si, seed, &empty, &out, &agg, &known, false);
+					absorb(check, si, seed, empty, &out, &agg, &known, false);
 				}
 			});
 		}
